@@ -20,7 +20,7 @@ CHECKS = {
         text="kt_start = 0 crossed with the whole configuration swarm (kt_finish, kt_ratio, 1..100 inner loops, step sizes, convergence) on scripted landscapes and real hard/LJ crystals: returned score >= input score, and no explanation-consistent history contains an accepted strictly-worse move.",
         note="decisions are inferred from the parameter vectors seen by score(); a violation needs every consistent explanation to contain a decrease"),
     "C06": dict(engine="e1-landscape (+ e2-crystal)", cat="exploration", ref="DESIGN.md 5.C06",
-        text="Hypothesis-tracked histories of the real optimiser on scripted landscapes (accept probability swept 0..1, n = 1..64 parameters, bounds, zero-width ranges, many inner loops): every observation must be a <=1-parameter move from the proposal or from the bit-exact pre-proposal state, and the returned object must be the last accepted state.",
+        text="Hypothesis-tracked histories of the real optimiser on scripted landscapes (accept probability swept 0..1, n = 1..64 parameters, bounds, zero-width ranges, many inner loops): every observation must be a <=1-parameter move from the proposal or from the bit-exact pre-proposal state, and the returned object must be the last accepted state; on real crystal states evaluating score() must leave every parameter as it was.",
         note="public-API observation only; ambiguity between explanations can hide a bug for a step but never raises an alarm"),
     "C07": dict(engine="e1-landscape", cat="exploration", ref="DESIGN.md 5.C07",
         text="Deterministic Metropolis clauses on every step of scripted histories (better => accepted, None => rejected, equal => accepted, kT=0 & worse => rejected) plus acceptance frequencies of exact-d downhill trials against exp(-d/kT) with Hoeffding bounds (false-alarm probability < 1e-12 per invocation).",
@@ -29,10 +29,10 @@ CHECKS = {
         text="Chains of 1..4 real optimisation stages on all groups x shapes x potentials with clamp and restart faults between stages: at every stage boundary and every score() call parameters lie in the declared ranges, the cell stays in its family, the score is Some and finite, no parameter is NaN or infinite (checked before the state is handed to the real score()); every group x shape starts valid. 1 % of the scenarios use polygons of circumradius 1e-3 ('any shape of well-defined area'): open known finding F1.",
         note="ranges are taken from the property text, re-derived per stage from the values at the start of that stage"),
     "C09": dict(engine="e3-replicas (shuttle + sim-rayon)", cat="exploration", ref="DESIGN.md 5.C09",
-        text="The unmodified src/main.rs replica pipeline runs on a simulated rayon whose workers are shuttle threads: output bytes are compared with the one-worker reference across seeded schedules, 1..16 workers, repeats and restarts; single-index delivery gives per-replica results; a vector-clock monitor on SharedValue accesses looks for unsynchronised cross-task access.",
+        text="The unmodified src/main.rs replica pipeline runs on a simulated rayon whose workers are shuttle threads: output bytes are compared with the one-worker reference across seeded schedules, 1..16 workers, repeats and restarts; single-index delivery gives per-replica results; a monitor on SharedValue accesses looks for unsynchronised cross-replica access; the shipped binary is compared across 1..16 threads, over junk output files and over the result of an earlier, longer run at the same path.",
         note="rayon is a stub (sim-rayon, patched in for the library as well); main.rs sees shuttle's std::sync/std::thread through a shim; schedules are sampled by shuttle's seeded random/PCT schedulers, not enumerated; every scenario runs in a fresh child process"),
     "C10": dict(engine="e3-replicas + e4-cliproc", cat="exploration", ref="DESIGN.md 5.C10",
-        text="Per-replica results obtained from the real pipeline through single-index delivery are compared with what the full run writes (max, prefix monotone in k, logged score = score of the written file) under varying reduction trees; the shipped binary is run over group x shape x potential x replications and its JSON labels/family/shape/copies compared with the request, also over stale output files and when handed a valid --start-config saved for another group.",
+        text="Per-replica results obtained from the real pipeline through single-index delivery are compared with what the full run writes (max, prefix monotone in k, logged score = score of the written file) under varying reduction trees; the shipped binary is run over group x shape x potential x replications and its JSON labels/family/shape/copies compared with the request, also over stale output files and when handed a valid --start-config saved for another group; 5 % of the process scenarios run the binary twice with k1 < k2 <= 200 replications (the larger run must not score lower).",
         note="sim-rayon stub for the in-process part; the process part uses the shipped binary with RAYON_NUM_THREADS=1"),
     "C11": dict(engine="e2-crystal + e3-replicas", cat="exploration", ref="DESIGN.md 5.C11, 12.5",
         text="Crash/restart through the only durable state: at stage boundaries and mid-stage snapshots of real optimisation chains the state is serialised, dropped, deserialised and continued; scores, placements, re-serialisation and the continued optimisation must be bit-identical. The written SVG's <use> matrices must equal the Cartesian transforms and their 8 nearest images. A second part runs the real analyse_state under seeded schedules with pre-emption and short writes at its file operations, reads the written JSON back and requires the SVG written next to it to be byte-identical to the SVG regenerated from that JSON; with a directory or a /dev/full symlink at one of the two output paths an execution that reports success must still have written the pair.",
@@ -101,7 +101,7 @@ def main():
         ],
         "checks": checks,
         "not_applicable": na,
-        "notes": "All checks: exit 0 = held on everything explored (KNOWN-FINDING lines possible), 1 = VIOLATION line with replay file, 2 = harness/build error. VERIF_SEED (default 20260917) decides every run. Known findings: /verif/known_findings.json (R1-R11 fixed in /repo by 'fix:' commits; one open finding, F1, on C08 - see DESIGN.md 13). Sensitivity: selftest/mutants.py (37 mutants) and seeded/ (84 independently written changes in 7 rounds, DESIGN.md 12). See DESIGN.md.",
+        "notes": "All checks: exit 0 = held on everything explored (KNOWN-FINDING lines possible), 1 = VIOLATION line with replay file, 2 = harness/build error. VERIF_SEED (default 20260917) decides every run. Known findings: /verif/known_findings.json (R1-R11 fixed in /repo by 'fix:' commits; one open finding, F1, on C08 - see DESIGN.md 13). Sensitivity: selftest/mutants.py (37 mutants) and seeded/ (95 independently written breaking changes in 8 rounds, DESIGN.md 12). Silence on correct code: benign/ (32 independently written property-preserving changes, DESIGN.md 12.9). See DESIGN.md.",
     }
     with open(os.path.join(HERE, "MANIFEST.json"), "w") as f:
         json.dump(m, f, indent=1)
